@@ -52,6 +52,8 @@ VARIANTS = {
     "bare": (None, None, None, False),
     # depends on the first parameter (p0): may only be given when p0 is given -- by position or by name alike
     "dep0": ("Param(7, dependencies=['p0'])", "7", None, False),
+    # takes no input: whatever is given for it (by position or by name) is dropped, the default is used
+    "noin": ("Param(7, no_input=True)", "7", None, False),
 }
 KIND_VARIANTS = {"po": ["req", "def", "priv"], "pk": ["req", "def", "alias", "adef", "oalias", "oadef", "priv", "bare"],
                  "ko": ["req", "def", "alias", "adef", "oalias", "priv"]}
@@ -142,6 +144,10 @@ def signatures(tier):
                 continue
             for vk in (False, True):
                 out.append(Sig([first] + rest, False, vk))
+    for params in ([("pk", "noin")], [("pk", "noin"), ("pk", "def")], [("pk", "req"), ("pk", "noin"), ("pk", "def")],
+                   [("po", "noin"), ("pk", "def")], [("po", "req"), ("po", "noin"), ("pk", "def")], [("pk", "def"), ("ko", "noin")]):
+        for vk in (False, True):
+            out.append(Sig(params, False, vk))
     return out
 
 
@@ -257,9 +263,12 @@ def expected(sig: Sig, ref, args, kwargs):
             bad = True
             return None
     bare = {n for (k, v), n in zip(sig.params, sig.names) if v == "bare"}
+    noin = {n for (k, v), n in zip(sig.params, sig.names) if v == "noin"}
     for n in sig.names:
         v = ba.arguments[n]
-        if n in given and n not in private and n not in bare:
+        if n in noin:
+            v = 7             # what was given is not looked at
+        elif n in given and n not in private and n not in bare:
             v = conv(v)
         out[n] = v
     if sig.var_pos:
